@@ -11,7 +11,7 @@ from collections import OrderedDict
 import numpy as np
 
 from vf.core import Workload
-from vf import taps, gen, tx
+from vf import warm, taps, gen, tx
 from vf.digest import digest, diff, shared, buffers
 
 ID = "C06"
@@ -222,7 +222,15 @@ def make_objects(rng, i):
     d = 2 + (i // 6) % 2
     if fam == 0:
         cls = gen.SHAPE_CLASSES[(i // 12) % 8]
-        return gen.shape(rng, cls, d=d, with_landmarks=int(rng.integers(0, 3))), cls, d
+        o = gen.shape(rng, cls, d=d, with_landmarks=int(rng.integers(0, 3)))
+        if rng.random() < 0.25:
+            # coordinates held as a read-only *view* of an array somebody else may still write to (a memory-mapped scan,
+            # the result of from_vector(as_vector())): read-only is a property of the view, not of the memory
+            base = np.array(o.points, copy=True)
+            v = base.view()
+            v.flags.writeable = False
+            o.points = v
+        return o, cls, d
     if fam == 1:
         cls = ["Image", "MaskedImage", "BooleanImage"][(i // 12) % 3]
         o = gen.image(rng, cls, shape=tuple(int(v) for v in rng.integers(3, 8, d)), dtype=[np.float64, np.uint8][(i // 36) % 2])
@@ -373,9 +381,33 @@ def w_independence(ctx, rng, i):
             d_c = digest(c)
     # --- every public mutator, on a copy (original must not notice) and on the original (copy must not notice)
     o, name, d = make_objects(np.random.default_rng(int(rng.integers(0, 2 ** 31))), i)
-    for mname, fn in mutators(rng, o, d):
+    probe_pts = tx.probe(np.random.default_rng(17), d, 6) if d in (2, 3) else None
+
+    def behaviour(z, apply_first):
+        """what z answers to its read-only queries and (transforms) where it sends a fixed set of points.  Before the copy is
+        taken the application comes last, afterwards first: whatever the object remembers about its last input is then the
+        same on both sides of the copy"""
+        out = []
+
+        def app():
+            if isinstance(z, taps.mod("menpo.transform.base").Transform) and probe_pts is not None:
+                try:
+                    nd = z.n_dims
+                    out.append(("apply(probe)", np.array(z.apply(probe_pts[:, :nd].copy() if nd else probe_pts.copy()), copy=True)))
+                except Exception as e:
+                    out.append(("apply(probe)", "raises:" + type(e).__name__))
+        if apply_first:
+            app()
+        out.extend(warm.snapshot(z))
+        if not apply_first:
+            app()
+        return sorted(out, key=lambda kv: kv[0])
+    for mname, fn in mutators(rng, o, d) + [("apply_to_other_points", lambda z: z.apply(tx.probe(rng, z.n_dims or d, 6, box=0.5 * tx.BOX)))
+                                              for _ in [0] if isinstance(o, taps.mod("menpo.transform.base").Transform) and d in (2, 3)]:
         for direction in ("copy", "original"):
             x = o.copy()
+            with taps.quiet():
+                b_other = behaviour(x, apply_first=False)     # history: the object has answered its queries / been applied before it is copied
             y = x.copy()
             dy, dx = digest(y), digest(x)
             target, other, dother = (y, x, dx) if direction == "copy" else (x, y, dy)
@@ -391,6 +423,13 @@ def w_independence(ctx, rng, i):
             if digest(other) != dother:
                 ctx.fail("mutating_%s_is_visible_in_the_other" % ("a_copy" if direction == "copy" else "the_original"),
                          cls=cls, mech=mname)
+            else:
+                with taps.quiet():
+                    b_after = behaviour(other, apply_first=True)
+                changed = warm.changed(b_other, b_after)[:3]
+                if changed:
+                    ctx.fail("mutating_%s_is_visible_in_the_other" % ("a_copy" if direction == "copy" else "the_original"),
+                             cls=cls, mech=mname + ":answers_changed:" + ",".join(changed))
     ctx.see("classes", cls)
     ctx.count_case((cls, d, tuple(sorted(set(ran)))), nontrivial=nbuf > 0 or bool(ran),
                    sample={"cls": cls, "dims": d, "buffers_written": nbuf, "mutators": sorted(set(ran))} if i < 8 else None)
